@@ -285,6 +285,38 @@ func recordSketchTrace(w *bufio.Writer, rng *rand.Rand, weighted bool, nValues i
 			sks[si].Clear()
 			inputs[si] = map[int]bool{}
 			emit(&skTraceLine{Op: "Clear", S: si + 1, Near: []int{}})
+		case r == 97:
+			// merge through the wire: Encode (mapping embedded or omitted) + DecodeAndMergeWith
+			ti := (si + 1 + rng.Intn(2)) % 3
+			if sks[ti].GetCount()+sks[si].GetCount() > 1<<22 {
+				continue
+			}
+			omit := rng.Intn(2)
+			var b []byte
+			sks[si].Encode(&b, omit == 1)
+			if err := sks[ti].DecodeAndMergeWith(b); err != nil {
+				return "DecodeAndMergeWith of a complete encoding with the same mapping refused: " + err.Error(), lines
+			}
+			for v := range inputs[si] {
+				inputs[ti][v] = true
+			}
+			c, p := cntQ(sks[ti])
+			if p != "" {
+				return p, lines
+			}
+			emit(&skTraceLine{Op: "EncDec", S: si + 1, T: ti + 1, W: omit, Cnt: c, Near: []int{}})
+		case r == 98:
+			ti := (si + 1 + rng.Intn(2)) % 3
+			sks[ti] = sks[si].Copy()
+			inputs[ti] = map[int]bool{}
+			for v := range inputs[si] {
+				inputs[ti][v] = true
+			}
+			c, p := cntQ(sks[ti])
+			if p != "" {
+				return p, lines
+			}
+			emit(&skTraceLine{Op: "Copy", S: si + 1, T: ti + 1, Cnt: c, Near: []int{}})
 		case r < 97 && weighted:
 			f := [][2]int{{2, 1}, {3, 1}}[rng.Intn(2)]
 			if sks[si].GetCount() > 1<<20 {
